@@ -173,9 +173,12 @@ def run(prop, args, seed, t0):
             if o["verdict"] == "discharged":
                 n_dis += 1
             elif o["verdict"] in ("failed", "failed-candidate"):
-                (violations if (o.get("source") == "property" and r["top_level"]) else undecided).append(o)
+                (violations if ((o.get("source") == "property" and r["top_level"]) or family(o["name"]) in baseline) else undecided).append(o)
             elif o["verdict"] == "disagree":
                 problems.append(f"solver disagreement on {o['name']}: {o.get('solver_disagreement')}")
+            elif o["verdict"] == "unknown" and family(o["name"]) in baseline:
+                # proved on the baseline tree, not re-established now (after a retry with 3x budget)
+                violations.append(o)
             else:
                 undecided.append(f"obligation {o['name']}: {o['verdict']}")
     # ---- replay failed top-level obligations ------------------------------------------------
@@ -186,7 +189,7 @@ def run(prop, args, seed, t0):
         if family(o["name"]) in confirmed_families:
             continue  # one replayed witness per obligation family is enough
         fname = os.path.join(HERE, "replay", prop, _safe(o["name"]) + ".json")
-        rp = {"property": prop, "obligation": o["name"], "solver": o["backend"], "model": o.get("model"), "verdict": o["verdict"]}
+        rp = {"property": prop, "obligation": o["name"], "solver": o["backend"], "model": o.get("model"), "verdict": o["verdict"], "solver_output": {k: o.get(k) for k in ("verdict", "reason_unknown", "ms", "smt2_sha") if o.get(k) is not None}}
         confirmed = None
         if o.get("replay") and o.get("model") is not None:
             tries = o.get("candidates") or [o["model"]]
@@ -213,10 +216,14 @@ def run(prop, args, seed, t0):
             violation_lines.append(f"VIOLATION property={prop} replay={fname}")
         elif confirmed is False:
             undecided.append(f"obligation {o['name']} failed in the solver but the counter-model was refuted natively (imprecise VC)")
-        elif o["verdict"] == "failed-candidate":
-            undecided.append(f"obligation {o['name']}: solver unknown; candidate counter-model could not be confirmed natively")
         elif family(o["name"]) in baseline:
+            rp["note"] = "this obligation is discharged on the baseline tree (baseline_obligations.json) and is not re-established on the current tree; no failing input could be replayed natively"
+            with open(fname, "w", encoding="utf8") as f:
+                json.dump(rp, f, indent=1, default=str)
+            confirmed_families.add(family(o["name"]))
             violation_lines.append(f"VIOLATION property={prop} replay={fname} no-failing-input-found")
+        elif o["verdict"] in ("failed-candidate", "unknown"):
+            undecided.append(f"obligation {o['name']}: solver unknown; no candidate counter-model was confirmed natively")
         else:
             undecided.append(f"obligation {o['name']} failed, has no native replay and is not in the baseline list")
     # ---- known findings: replay witnesses -------------------------------------------------------
